@@ -95,24 +95,27 @@ NoResp == [frames |-> <<>>, err |-> <<>>]
 Out(t, r) == [t |-> t, resp |-> r]
 
 \* is the partial last line p (no LF in it) a proper prefix of some valid line?  TRUE only when certainly so.
-RECURSIVE AckViable(_, _, _)
-\* st: 1 code digits, 2 idx digits, 3 "] {" seen ... scanned as a small automaton over l from position i
-AckViable(l, i, st) ==
-  IF i > Len(l) THEN TRUE ELSE
+RECURSIVE AckViable(_, _, _, _)
+\* a small automaton over l from position i; ds = start index of the digit string being read (code or index): a number that
+\* already exceeds 2^64-1 can no longer become valid
+AckViable(l, i, st, ds) ==
+  IF i > Len(l) THEN (st \notin {11, 21} \/ ~DigitsGt(SubSeq(l, ds, Len(l)), U64MAX)) ELSE
   LET c == l[i] IN
-  CASE st = 0 -> (i <= 5 /\ c = (ACKSP \o <<91>>)[i] /\ AckViable(l, i + 1, IF i = 5 THEN 1 ELSE 0))
-    [] st = 1 -> IF Digit(c) THEN AckViable(l, i + 1, 11) ELSE FALSE                   \* first code digit
-    [] st = 11 -> IF Digit(c) THEN AckViable(l, i + 1, 11) ELSE c = 64 /\ AckViable(l, i + 1, 2)
-    [] st = 2 -> IF Digit(c) THEN AckViable(l, i + 1, 21) ELSE FALSE
-    [] st = 21 -> IF Digit(c) THEN AckViable(l, i + 1, 21) ELSE c = 93 /\ AckViable(l, i + 1, 3)
-    [] st = 3 -> c = 32 /\ AckViable(l, i + 1, 4)
-    [] st = 4 -> c = 123 /\ AckViable(l, i + 1, 5)
-    [] st = 5 -> IF CmdCh(c) THEN AckViable(l, i + 1, 5) ELSE c = 125 /\ AckViable(l, i + 1, 6)
-    [] st = 6 -> c = 32 /\ AckViable(l, i + 1, 7)
-    [] OTHER -> c < 128 /\ AckViable(l, i + 1, 7)                                         \* message: ASCII only counts as certain
+  CASE st = 0 -> (i <= 5 /\ c = (ACKSP \o <<91>>)[i] /\ AckViable(l, i + 1, IF i = 5 THEN 1 ELSE 0, 0))
+    [] st = 1 -> IF Digit(c) THEN AckViable(l, i + 1, 11, i) ELSE FALSE                   \* first code digit
+    [] st = 11 -> IF Digit(c) THEN AckViable(l, i + 1, 11, ds)
+                  ELSE c = 64 /\ ~DigitsGt(SubSeq(l, ds, i - 1), U64MAX) /\ AckViable(l, i + 1, 2, 0)
+    [] st = 2 -> IF Digit(c) THEN AckViable(l, i + 1, 21, i) ELSE FALSE
+    [] st = 21 -> IF Digit(c) THEN AckViable(l, i + 1, 21, ds)
+                  ELSE c = 93 /\ ~DigitsGt(SubSeq(l, ds, i - 1), U64MAX) /\ AckViable(l, i + 1, 3, 0)
+    [] st = 3 -> c = 32 /\ AckViable(l, i + 1, 4, 0)
+    [] st = 4 -> c = 123 /\ AckViable(l, i + 1, 5, 0)
+    [] st = 5 -> IF CmdCh(c) THEN AckViable(l, i + 1, 5, 0) ELSE c = 125 /\ AckViable(l, i + 1, 6, 0)
+    [] st = 6 -> c = 32 /\ AckViable(l, i + 1, 7, 0)
+    [] OTHER -> c < 128 /\ AckViable(l, i + 1, 7, 0)                                         \* message: ASCII only counts as certain
 Viable(p) ==
   \/ IsPrefixOf(p, OKLINE) \/ IsPrefixOf(p, LISTOK)
-  \/ AckViable(p, 1, 0)
+  \/ AckViable(p, 1, 0, 0)
   \/ LET j == FirstIdx(p, 1, LAMBDA c : ~KeyCh(c)) IN
      \/ (j = 0 /\ p # <<>>)                                  \* only key characters so far
      \/ (j > 1 /\ j = Len(p) /\ p[j] = 58)                   \* "key:"
